@@ -6,7 +6,9 @@ the set-CAS family, delete-cas on an absent KV key reporting `true`, the CA conf
 signalling a mismatch by an error, autopilot CAS refusing to create, the silent ACL token CAS).
 
 Mirrors (agent/consul/state unless noted)
-  kvs.go            kvsSetTxn, kvsDeleteTxn, kvsSetCASTxn/KVSSetCAS, kvsDeleteCASTxn/KVSDeleteCAS
+  kvs.go            kvsSetTxn, kvsDeleteTxn, kvsSetCASTxn/KVSSetCAS, kvsDeleteCASTxn/KVSDeleteCAS,
+                    kvsLockTxn/KVSLock, kvsUnlockTxn/KVSUnlock, kvsCheckSessionTxn, kvsCheckIndexTxn
+  session.go        sessionCreateTxn/SessionCreate, deleteSessionTxn/SessionDestroy (no checks, no lock delay)
   catalog.go        ensureNodeTxn (node IDs, rename-by-ID, ensureNoNodeWithSimilarNameTxn), ensureServiceTxn, ensureCheckTxn (row level),
                     deleteNodeTxn / deleteServiceTxn / deleteCheckTxn (row level, with cascades),
                     ensure{Node,Service,Check}CASTxn, delete{Node,Service,Check}CASTxn
@@ -18,7 +20,7 @@ Mirrors (agent/consul/state unless noted)
                     CARootSetCASAndCheckAndSetConfig
   autopilot.go      autopilotSetConfigTxn, AutopilotCASConfig
   feature_gate.go   FeatureGateUpdate
-  acl.go            aclTokenSetTxn (opts.CAS), ACLTokenBatchSet, ACLTokenBatchDelete
+  acl.go            aclTokenSetTxn (opts.CAS), ACLTokenBatchSet, ACLTokenBatchDelete, ACLBootstrap
   fsm/commands_ce.go  applyKVSOperation, applyTxn, applyConfigEntryOperation,
                     ApplyConnectCAOperationFromRequest, applyAutopilotUpdate,
                     applyFeatureGateUpdate, applyACLTokenSetOperation  (`fsmApply`)
@@ -28,7 +30,11 @@ the tables whose bookkeeping is a single entry (kvs, tombstones, config-entries,
 connect-ca-roots, acl-tokens).  Catalog rows are modelled without the derived catalog index
 entries / kind-service-names / usage rows (those belong to C07/C01); the Go monitor of the C10
 harness compares the *complete* memdb dump around every failed conditional write.
-Sessions and locks are out of scope (the harness keeps Session = "" and LockIndex = 0).
+Sessions are modelled without health checks and with LockDelay 0 (`sessCreate`, `sessDelete` with
+its release / delete cascade over the keys the session holds, invalidation when the node goes);
+KV rows carry LockIndex and Session; `kvLock` / `kvUnlock` are the session-conditioned writes,
+`check-index` / `check-session` / `check-not-exists` the pure guards of a transaction.
+`tokBootstrap` is `ACLBootstrap` (conditional on the reset index).
 Core-only Lean; no Mathlib.
 -/
 import CV.Proto
@@ -98,6 +104,13 @@ def imaxIndex (t : Idx) (k : String) : Nat := match iget t k with | some v => v 
 structure KVal where
   value : String
   flags : Nat
+  lockIndex : Nat := 0     -- `DirEntry.LockIndex` (requests of the harness carry 0)
+  session : String := ""   -- `DirEntry.Session`: the lock holder, "" = not locked
+deriving DecidableEq, Repr
+
+structure SessVal where
+  node     : String        -- the node name as given at creation (indexed lower-cased)
+  behavior : String        -- "release" / "delete"
 deriving DecidableEq, Repr
 
 structure NodeVal where
@@ -154,6 +167,7 @@ structure State where
   fgPolicy  : Cell String := none
   fgStatus  : Cell FgsVal := none
   toks      : Tab String TokVal := []                 -- accessor id
+  sess      : Tab String SessVal := []                -- session id
   idx       : Idx := []
 deriving DecidableEq, Repr
 
@@ -173,11 +187,23 @@ inductive Err
   | tokNoSecret        -- ErrMissingACLTokenSecret
   | tokNoAccessor      -- ErrMissingACLTokenAccessor
   | tokSecretImmutable -- "The ACL Token SecretID field is immutable"
+  | missingSession     -- kvsLockTxn / kvsUnlockTxn: "missing session"
+  | invalidSession     -- kvsLockTxn: "invalid session …" (no such session)
+  | lockHeld           -- txn verb lock: "failed to lock key …, lock is already held"
+  | lockNotHeld        -- txn verb unlock: "failed to unlock key …, lock isn't held, or is held by another session"
+  | keyMissing         -- check-session / check-index: "… key … doesn't exist"
+  | sessionMismatch    -- check-session: "failed session check for key …"
+  | indexMismatch      -- check-index: "failed index check for key …"
+  | keyExists          -- check-not-exists: "key … exists"
+  | missingSessionId   -- ErrMissingSessionID
+  | badBehavior        -- "Invalid session behavior: …"
+  | bootstrapNotAllowed   -- structs.ACLBootstrapNotAllowedErr
+  | bootstrapInvalidReset -- structs.ACLBootstrapInvalidResetIndexErr
 deriving DecidableEq, Repr
 
 /-- one `structs.TxnResult`: the entry a write verb hands back (key + its raft indexes) -/
 inductive TRes
-  | kv   (key : String) (flags create modify : Nat)
+  | kv   (key : String) (flags lockIndex : Nat) (session : String) (create modify : Nat)
   | node (name : String) (create modify : Nat)
   | svc  (node id : String) (create modify : Nat)
   | chk  (node id : String) (create modify : Nat)
@@ -202,15 +228,23 @@ def Out.reported (o : Out) : Bool := o.res == .ok true
 
 /-! ## KV -/
 
-/-- `kvsSetTxn(tx, idx, entry, updateSession=false)`: an entry equal to the stored one is not
+/-- `kvsSetTxn(tx, idx, entry, updateSession)`: unless `updateSession`, the stored session is kept
+    ("no session" for a new key); every other field — LockIndex included — is the request's.
+    An entry equal to the stored one (`DirEntry.Equal`: value, flags, LockIndex, session) is not
     rewritten (ModifyIndex stays), otherwise the row is stored with ModifyIndex = idx and the
     `kvs` index entry is *set* to idx. -/
-def kvSet (s : State) (i : Nat) (k : String) (v : KVal) : State :=
+def kvSetCore (s : State) (i : Nat) (k : String) (v : KVal) (updateSession : Bool) : State :=
   match tget s.kvs k with
   | some e =>
-    if e.val = v then s
-    else { s with kvs := tput s.kvs k ⟨v, e.create, i⟩, idx := iset s.idx "kvs" i }
-  | none => { s with kvs := tput s.kvs k ⟨v, i, i⟩, idx := iset s.idx "kvs" i }
+    let v' : KVal := if updateSession then v else { v with session := e.val.session }
+    if e.val = v' then s
+    else { s with kvs := tput s.kvs k ⟨v', e.create, i⟩, idx := iset s.idx "kvs" i }
+  | none =>
+    let v' : KVal := if updateSession then v else { v with session := "" }
+    { s with kvs := tput s.kvs k ⟨v', i, i⟩, idx := iset s.idx "kvs" i }
+
+/-- `kvsSetTxn(tx, idx, entry, updateSession=false)` -/
+def kvSet (s : State) (i : Nat) (k : String) (v : KVal) : State := kvSetCore s i k v false
 
 /-- `kvsDeleteTxn`: absent ⇒ nothing; else tombstone + delete + both index entries set. -/
 def kvDelete (s : State) (i : Nat) (k : String) : State :=
@@ -240,6 +274,92 @@ def kvDeleteCas (s : State) (i : Nat) (k : String) (cidx : Nat) : Out :=
   match tget s.kvs k with
   | none => ⟨s, .ok true⟩
   | some e => if e.modify ≠ cidx then ⟨s, .ok false⟩ else ⟨kvDelete s i k, .ok true⟩
+
+/-! ### Session-conditioned KV writes -/
+
+/-- `kvsLockTxn`: `(locked, err)` with the working state.  The session must be named and exist;
+    a key held by ANOTHER session refuses (`false`); re-acquiring one's own lock keeps LockIndex,
+    taking a free key raises it by one (1 for a new key). -/
+def kvLockTxn (s : State) (i : Nat) (k : String) (v : KVal) : Except Err (Bool × State) :=
+  if v.session = "" then .error .missingSession
+  else if (tget s.sess v.session).isNone then .error .invalidSession
+  else match tget s.kvs k with
+    | some e =>
+      if e.val.session = v.session then .ok (true, kvSetCore s i k { v with lockIndex := e.val.lockIndex } true)
+      else if e.val.session ≠ "" then .ok (false, s)
+      else .ok (true, kvSetCore s i k { v with lockIndex := e.val.lockIndex + 1 } true)
+    | none => .ok (true, kvSetCore s i k { v with lockIndex := 1 } true)
+
+/-- `kvsUnlockTxn`: only the holder unlocks; the request's value and flags are stored. -/
+def kvUnlockTxn (s : State) (i : Nat) (k : String) (v : KVal) : Except Err (Bool × State) :=
+  if v.session = "" then .error .missingSession
+  else match tget s.kvs k with
+    | none => .ok (false, s)
+    | some e =>
+      if e.val.session ≠ v.session then .ok (false, s)
+      else .ok (true, kvSetCore s i k { v with session := "", lockIndex := e.val.lockIndex } true)
+
+/-- `KVSLock` / `KVSUnlock`: commit only when applied -/
+def ofLock (s : State) (r : Except Err (Bool × State)) : Out :=
+  match r with
+  | .error e => ⟨s, .err e⟩
+  | .ok (false, _) => ⟨s, .ok false⟩
+  | .ok (true, s') => ⟨s', .ok true⟩
+
+def kvLock (s : State) (i : Nat) (k : String) (v : KVal) : Out := ofLock s (kvLockTxn s i k v)
+def kvUnlock (s : State) (i : Nat) (k : String) (v : KVal) : Out := ofLock s (kvUnlockTxn s i k v)
+
+/-- the txn verbs `lock` / `unlock`: `!ok && err == nil` ⇒ the verb's own error -/
+def ofLockTxn (refused : Err) (r : Except Err (Bool × State)) : Except Err State :=
+  match r with
+  | .error e => .error e
+  | .ok (false, _) => .error refused
+  | .ok (true, s') => .ok s'
+
+/-- `kvsCheckSessionTxn` -/
+def kvCheckSession (s : State) (k sess : String) : Except Err Unit :=
+  match tget s.kvs k with
+  | none => .error .keyMissing
+  | some e => if e.val.session ≠ sess then .error .sessionMismatch else .ok ()
+
+/-- `kvsCheckIndexTxn` -/
+def kvCheckIndex (s : State) (k : String) (cidx : Nat) : Except Err Unit :=
+  match tget s.kvs k with
+  | none => .error .keyMissing
+  | some e => if e.modify ≠ cidx then .error .indexMismatch else .ok ()
+
+/-- txn verb `check-not-exists` -/
+def kvCheckNotExists (s : State) (k : String) : Except Err Unit :=
+  match tget s.kvs k with
+  | none => .ok ()
+  | some _ => .error .keyExists
+
+/-! ### Sessions (no health checks attached, LockDelay 0) -/
+
+/-- `sessionCreateTxn`: ID, behaviour, node must exist; the `sessions` index entry is *set*. -/
+def sessCreate (s : State) (i : Nat) (id node behavior : String) : Except Err State :=
+  if id = "" then .error .missingSessionId
+  else if behavior ≠ "" ∧ behavior ≠ "release" ∧ behavior ≠ "delete" then .error .badBehavior
+  else if (tget s.nodes (lc node)).isNone then .error .missingNode
+  else .ok { s with sess := tput s.sess id ⟨⟨node, if behavior = "" then "release" else behavior⟩, i, i⟩
+                    idx := iset s.idx "sessions" i }
+
+/-- release one key held by a vanished session: the row is cloned with Session = "" -/
+def kvRelease (w : State) (i : Nat) (k : String) : State :=
+  match tget w.kvs k with
+  | some e => kvSetCore w i k { e.val with session := "" } true
+  | none => w
+
+/-- `deleteSessionTxn`: the row goes, the `sessions` entry is set, every key the session holds is
+    released (behaviour release) or deleted (behaviour delete). -/
+def sessDelete (s : State) (i : Nat) (id : String) : State :=
+  match tget s.sess id with
+  | none => s
+  | some e =>
+    let s1 := { s with sess := tdel s.sess id, idx := iset s.idx "sessions" i }
+    let held := (s1.kvs.filter (fun p => p.2.val.session = id)).map (·.1)
+    if e.val.behavior = "delete" then held.foldl (fun w k => kvDelete w i k) s1
+    else held.foldl (fun w k => kvRelease w i k) s1
 
 /-! ## Catalog rows (nodes with or without a node ID, typical services, checks) and the
 index-table entries every catalog write maintains
@@ -336,7 +456,8 @@ def svcDelete (s : State) (i : Nat) (n id : String) : State :=
                             "kind_service_names.typical" i }
 
 /-- `deleteNodeTxn`: services (with their checks), remaining checks, then the node row, its
-    `node.<name>` entry and the node extinction index -/
+    `node.<name>` entry and the node extinction index; finally every session of the node is
+    invalidated (`deleteSessionTxn`, releasing or deleting the keys it holds) -/
 def nodeDelete (s : State) (i : Nat) (n : String) : State :=
   let k := lc n
   match tget s.nodes k with
@@ -347,8 +468,10 @@ def nodeDelete (s : State) (i : Nat) (n : String) : State :=
     let s1 := mine.foldl (fun w id => svcDelete w i n id) s0
     let myChks := (s1.chks.filter (fun p => p.1.1 = k)).map (·.1.2)
     let s2 := myChks.foldl (fun w c => chkDelete w i n c) s1
-    { s2 with nodes := tdel s2.nodes k
-              idx := imax (idel (ixNodes s2.idx i) (peered ("node." ++ n))) (peered "node_last_extinction") i }
+    let s3 := { s2 with nodes := tdel s2.nodes k
+                        idx := imax (idel (ixNodes s2.idx i) (peered ("node." ++ n))) (peered "node_last_extinction") i }
+    let mySess := (s3.sess.filter (fun p => lc p.2.val.node = k)).map (·.1)
+    mySess.foldl (fun w id => sessDelete w i id) s3
 
 /-- `ensureNodeTxn`.  With a node ID: a registration already carrying that ID is the one being
     updated — if it is stored under another name this is a rename (name-clash check, then the old
@@ -435,6 +558,9 @@ def chkDeleteCas (s : State) (i : Nat) (n id : String) (cidx : Nat) : Except Err
 inductive TOp
   | kvSet (k : String) (v : KVal) | kvDelete (k : String)
   | kvCas (k : String) (v : KVal) (cidx : Nat) | kvDeleteCas (k : String) (cidx : Nat)
+  | kvLock (k : String) (v : KVal) | kvUnlock (k : String) (v : KVal)
+  | kvCheckSession (k sess : String) | kvCheckIndex (k : String) (cidx : Nat) | kvCheckNotExists (k : String)
+  | sessDelete (id : String)
   | nodeSet (v : NodeVal) | nodeDelete (n : String)
   | nodeCas (v : NodeVal) (cidx : Nat) | nodeDeleteCas (n : String) (cidx : Nat)
   | svcSet (n id : String) (port : Nat) | svcDelete (n id : String)
@@ -444,7 +570,7 @@ inductive TOp
 deriving DecidableEq, Repr
 
 def kvRes (s : State) (k : String) : List TRes :=
-  match tget s.kvs k with | some e => [.kv k e.val.flags e.create e.modify] | none => []
+  match tget s.kvs k with | some e => [.kv k e.val.flags e.val.lockIndex e.val.session e.create e.modify] | none => []
 /-- `txnNode`'s `getNode()`: by node ID when the operation carries one, else by name;
     the result carries the name as stored -/
 def nodeRes (s : State) (v : NodeVal) : List TRes :=
@@ -471,6 +597,12 @@ def tapply (w : State) (i : Nat) : TOp → Except Err (State × List TRes)
   | .kvDelete k => .ok (kvDelete w i k, [])
   | .kvCas k v c => (ofCas (kvCas w i k v c)).map fun w' => (w', kvRes w' k)
   | .kvDeleteCas k c => (ofCas (kvDeleteCas w i k c)).map fun w' => (w', [])
+  | .kvLock k v => (ofLockTxn .lockHeld (kvLockTxn w i k v)).map fun w' => (w', kvRes w' k)
+  | .kvUnlock k v => (ofLockTxn .lockNotHeld (kvUnlockTxn w i k v)).map fun w' => (w', kvRes w' k)
+  | .kvCheckSession k se => (kvCheckSession w k se).map fun _ => (w, kvRes w k)
+  | .kvCheckIndex k c => (kvCheckIndex w k c).map fun _ => (w, kvRes w k)
+  | .kvCheckNotExists k => (kvCheckNotExists w k).map fun _ => (w, [])
+  | .sessDelete id => .ok (sessDelete w i id, [])
   | .nodeSet v => (nodeSet w i v).map fun w' => (w', nodeRes w' v)
   | .nodeDelete n => .ok (nodeDelete w i n, [])
   | .nodeCas v c => (nodeCas w i v c).map fun w' => (w', nodeRes w' v)
@@ -707,6 +839,21 @@ def tokDeleteOne (s : State) (i : Nat) (acc : String) : State :=
 def tokBatchDelete (s : State) (i : Nat) (accs : List String) : State :=
   accs.foldl (fun w a => tokDeleteOne w i a) s
 
+/-- `ACLBootstrap(idx, resetIndex, token)`: allowed when the cluster was never bootstrapped (no
+    `acl-token-bootstrap` entry — the reset index is then ignored), or when the supplied reset
+    index is non-zero and equals the entry; the token is written by `aclTokenSetTxn` without CAS
+    and the entry is set to idx. -/
+def tokBootstrap (s : State) (i : Nat) (reset : Nat) (t : TokReq) : Out :=
+  let go : Out := match tokSetOne s i false t with
+    | .ok w => ⟨{ w with idx := iset w.idx "acl-token-bootstrap" i }, .unit⟩
+    | .error e => ⟨s, .err e⟩
+  match iget s.idx "acl-token-bootstrap" with
+  | some v =>
+    if reset = 0 then ⟨s, .err .bootstrapNotAllowed⟩
+    else if reset ≠ v then ⟨s, .err .bootstrapInvalidReset⟩
+    else go
+  | none => go
+
 /-! ## Commands: the Store API and the FSM (raft command) layer -/
 
 inductive Cmd
@@ -723,6 +870,9 @@ inductive Cmd
   | apSet (v : Nat) | apCas (v : Nat) (cidx : Nat)
   | fg (pol st : Option String) (expP expS : Nat)
   | tokSet (cas : Bool) (ts : List TokReq) | tokDelete (accs : List String)
+  | kvLock (k : String) (v : KVal) | kvUnlock (k : String) (v : KVal)
+  | sessCreate (id node behavior : String) | sessDestroy (id : String)
+  | tokBootstrap (reset : Nat) (t : TokReq)
 deriving DecidableEq, Repr
 
 /-- the `state.Store` method of each command, at raft index `i` -/
@@ -746,6 +896,11 @@ def storeApply (s : State) (i : Nat) : Cmd → Out
   | .fg p st ep es => fgUpdate s i p st ep es
   | .tokSet cas ts => tokBatchSet s i cas ts
   | .tokDelete accs => ⟨tokBatchDelete s i accs, .unit⟩
+  | .kvLock k v => kvLock s i k v
+  | .kvUnlock k v => kvUnlock s i k v
+  | .sessCreate id n b => match sessCreate s i id n b with | .ok s' => ⟨s', .unit⟩ | .error e => ⟨s, .err e⟩
+  | .sessDestroy id => ⟨sessDelete s i id, .unit⟩
+  | .tokBootstrap r t => tokBootstrap s i r t
 
 /-- the raft command handler of each command (`fsm/commands_ce.go`).  It is the Store method
     except that (a) `ConfigEntryUpsert` answers `true`, and (b) `CAOpSetConfig` decides between the
